@@ -11,6 +11,8 @@
 //   rand      every use of math/rand, crypto/rand, base.NewRand
 //   go        every go statement
 //   float     every function that does float64 arithmetic or conversion
+//   flag      every read of a proposal flag common.IsProposalNNN() (they read the process-wide chain height)
+//   chainheight every direct common.GetBlockHeight / SetBlockHeight call
 // and prints Rangers/Generated/NondetSites.lean on stdout.
 package main
 
@@ -241,6 +243,16 @@ func main() {
 									if sel := info.Selections[se]; sel != nil && strings.Contains(sel.Recv().String(), "sync.Map") {
 										sites = append(sites, site{"syncrange", rel, fn, exprString(fset, se.X)})
 									}
+								}
+							}
+							if se, ok := x.Fun.(*ast.SelectorExpr); ok && strings.HasPrefix(se.Sel.Name, "IsProposal") {
+								if pk, ok := se.X.(*ast.Ident); ok && pk.Name == "common" {
+									sites = append(sites, site{"flag", rel, fn, se.Sel.Name})
+								}
+							}
+							if se, ok := x.Fun.(*ast.SelectorExpr); ok && (se.Sel.Name == "GetBlockHeight" || se.Sel.Name == "SetBlockHeight") {
+								if pk, ok := se.X.(*ast.Ident); ok && pk.Name == "common" {
+									sites = append(sites, site{"chainheight", rel, fn, se.Sel.Name})
 								}
 							}
 							if id, ok := x.Fun.(*ast.Ident); ok && id.Name == "float64" {
